@@ -52,7 +52,8 @@ Definition d_nm (d : dcl) : nat := c_nm (d_cls d).
    `walk src_facts` is re-proved against the current source. *)
 Inductive rtest := TNotNone | TTruthy | TAlways.   (* `x is not None` | `x` | no test *)
 Inductive wstep := WChildren | WOwn | WDecl.        (* attribute loop | own-class call | declared-class call *)
-Inductive retpol := ROwnFirst | RDeclFirst.         (* which non-None result is returned *)
+Inductive retpol := ROwnFirst | RDeclFirst           (* which non-None result is returned *)
+                | ROwnTruthy | RDeclTruthy.        (* `return a or b` *)
 
 Record walk_facts := WF {
   wf_match_skip : bool;      (* `if metaclass_of_grammar_rule._tx_type is RULE_MATCH: return` is there *)
@@ -82,7 +83,10 @@ Fixpoint wsteps_eqb (a b : list wstep) : bool :=
   | _, _ => false
   end.
 Definition retpol_eqb (a b : retpol) : bool :=
-  match a, b with ROwnFirst, ROwnFirst | RDeclFirst, RDeclFirst => true | _, _ => false end.
+  match a, b with
+  | ROwnFirst, ROwnFirst | RDeclFirst, RDeclFirst | ROwnTruthy, ROwnTruthy | RDeclTruthy, RDeclTruthy => true
+  | _, _ => false
+  end.
 
 Definition facts_ok (F : walk_facts) : bool :=
   Bool.eqb (wf_match_skip F) true && Bool.eqb (wf_only_cont F) true &&
@@ -119,6 +123,8 @@ Section Walk.
     match wf_ret F with
     | ROwnFirst => match rc with Some r => Some r | None => rg end
     | RDeclFirst => match rg with Some r => Some r | None => rc end
+    | ROwnTruthy => match rc with Some r => if truthy r then Some r else rg | None => rg end
+    | RDeclTruthy => match rg with Some r => if truthy r then Some r else rc | None => rc end
     end.
 
   (* State-passing transcription: `log` is the list of calls made so far (Python appends). *)
